@@ -326,7 +326,7 @@ def strip_generics(key):
     i = 0
     n = len(key)
     while i < n:
-        if key.startswith("::<", i):
+        if key.startswith("::<", i) and not _is_qualified_self(key, i + 2):
             depth = 0
             j = i + 2
             while j < n:
@@ -342,6 +342,33 @@ def strip_generics(key):
         out.append(key[i])
         i += 1
     return "".join(out)
+
+
+def _is_qualified_self(key, lt):
+    """`<X as Trait>` / `<impl ..>` path segments are part of the name, not turbofish arguments."""
+    depth = 0
+    j = lt
+    while j < len(key):
+        c = key[j]
+        if c == "<":
+            depth += 1
+        elif c == ">" and key[j - 1] != "-":
+            depth -= 1
+            if depth == 0:
+                break
+        j += 1
+    inner = key[lt + 1:j]
+    if inner.startswith("impl "):
+        return True
+    d = 0
+    for n, c in enumerate(inner):
+        if c == "<":
+            d += 1
+        elif c == ">" and inner[n - 1] != "-":
+            d -= 1
+        elif d == 0 and inner.startswith(" as ", n):
+            return True
+    return False
 
 
 def _suffix(key, suffix):
